@@ -580,7 +580,7 @@ func c10Fold(c *Ctx, cs *c10Case, m *c10Model, o *c10Outcome, shrink bool) {
 // ---- runner ----
 
 func runC10(c *Ctx) {
-	c.Res.Rule = "interactive, two script streams on generated profiles (labels, inlining, 1-4 sample types, absolute file names, four scratch source trees with different basenames/contents): (a) 60% free-form scripts — 50% report commands with focus/ignore/count/-cum/>file arguments, 30% assignments of every option incl. invalid values, shortcuts, built-ins, junk; (b) 40% toggle scripts — ONE option (40% source_path/trim_path, else any of the 31 content-relevant options) re-assigned to 2-3 different output-changing values, v1 v2 v3 v1 …, with the same file-/value-sensitive probe command after every re-assignment (list, weblist, top/tree/dot at file or line granularity, traces, tags, callgrind …) and noise reports in between. Real pprof binary, one process per session; every probed line's transcript+files is compared with a fresh session replaying only the assignment lines before it; the Lean model classifies the lines, predicts the options shown by `o` and what each command's arguments contribute (desugared reference). web: each case in processes of its own, non-URL options (source_path, trim_path, tagroot/tagleaf, divide_by) as flags: response of r on a fresh server vs after other requests, sequentially and concurrently. non-trivial = at least one compared probe is preceded by an executed report command (interactive) / by ≥1 other view request with filter parameters (web); distinct by script text"
+	c.Res.Rule = "interactive, two script streams on generated profiles (labels, inlining, 1-4 sample types, absolute file names, four scratch source trees with different basenames/contents): (a) 60% free-form scripts — 50% report commands with focus/ignore/count/-cum/>file arguments, 30% assignments of every option incl. invalid values, shortcuts, built-ins, junk; (b) 40% toggle scripts — ONE option (40% source_path/trim_path, else any of the 31 content-relevant options) re-assigned to 2-3 different output-changing values, v1 v2 v3 v1 …, with the same file-/value-sensitive probe command after every re-assignment (list, weblist, top/tree/dot at file or line granularity, traces, tags, callgrind …) and noise reports in between. Real pprof binary, one process per session; every probed line's transcript+files is compared with a fresh session replaying only the assignment lines before it; the Lean model classifies the lines, predicts the options shown by `o` and what each command's arguments contribute (desugared reference). web: each case in three child processes (seq / conc / stall), non-URL options (source_path, trim_path, tagroot/tagleaf, divide_by) as flags, every 4th profile large enough for pages > 64 KiB: response of r on a fresh server vs after other requests, concurrently with them, and while still being written to a stalling slow-client ResponseWriter (r and up to 3 other URLs in flight) while the other URLs are rendered, GOMAXPROCS=1 and N. non-trivial = at least one compared probe is preceded by an executed report command (interactive) / by ≥1 other view request with filter parameters (web); distinct by script text"
 	if c.Replay != "" {
 		var cs c10Case
 		if err := c.LoadReplay(&cs); err != nil {
@@ -690,6 +690,9 @@ func runC10(c *Ctx) {
 	wcases := make([]*c10Case, nw)
 	for i := range wcases {
 		p := c10GenProfile(r)
+		if i%4 == 3 {
+			p = c10GenProfileSized(r, 300+r.Intn(300), 14) // pages > 64 KiB
+		}
 		b, _ := c10WriteU(p)
 		cs := &c10Case{Kind: "web", Profile: hex.EncodeToString(b), Request: r.c10WebRequest(c10Types(p)), Flags: r.c10WebFlags()}
 		for k, no := 0, 3+r.Intn(6); k < no; k++ {
@@ -732,7 +735,7 @@ type c10WebOut struct {
 // c10WebRun: the sequential and the concurrent phase each in a child process of their own, so that a
 // crash of the concurrent phase (fatal error: concurrent map writes …) does not hide the sequential verdict.
 func c10WebRun(c *Ctx, cs *c10Case) []c10WebOut {
-	phases := []string{"seq", "conc"}
+	phases := []string{"seq", "conc", "stall"}
 	if cs.Phase != "" {
 		phases = []string{cs.Phase}
 	}
